@@ -1,5 +1,9 @@
-// C18 oracle: a direct library decode of a file, driven the way the command-line tools drive liblzma,
-// but with the whole input handed over at once (the result must not depend on slicing: C06).
+// C18 oracle: a direct library decode of a file with the decoder, flags and end-of-input rules the command-line
+// tools use.  Two slicings: W = whole input in one buffer, 64 KiB output buffer, LZMA_FINISH from the start;
+// 8 = the tools' 8 KiB input and output buffers (LZMA_FINISH once a read came back short).  For a valid file and for
+// everything up to the last lzma_code() call of a failing one the two agree (C06); the bytes stored by the failing
+// call itself may differ when a BCJ filter follows the failing decoder (they are left unfiltered; DESIGN.md section 6),
+// so the check compares single-threaded tools with slicing 8 exactly and threaded ones on the common part.
 //
 //   c18_libdec < jobs            one job per line:  <mode> <flags> <infile> <outfile>
 //     mode   xz      what xz(1) documents for --format=auto: .xz magic -> lzma_stream_decoder,
@@ -10,7 +14,7 @@
 //            lzip    lzma_lzip_decoder
 //            auto    lzma_auto_decoder
 //     flags  a string over {S = single stream (no LZMA_CONCATENATED), I = LZMA_IGNORE_CHECK,
-//                           U = LZMA_TELL_UNSUPPORTED_CHECK, - = none}
+//                           U = LZMA_TELL_UNSUPPORTED_CHECK, 8 = 8 KiB slicing (default W), - = none}
 //   per job one line:
 //     RES ret=<final lzma_ret> err=<0|1> out=<bytes produced> in=<bytes consumed> unsup=<n> fmt=<xz|lzip|lzma|none>
 //         heur=<0|1: .lzma header readable by liblzma but outside what xz accepts as .lzma> left=<input bytes not consumed>
@@ -71,9 +75,10 @@ int main(void) {
 		else if (!strcmp(mode, "alone")) { fmt = "lzma"; r = lzma_alone_decoder(&s, UINT64_MAX); inited = true; trailing_is_error = true; }
 		else if (!strcmp(mode, "lzip")) { fmt = "lzip"; r = lzma_lzip_decoder(&s, UINT64_MAX, fl); inited = true; trailing_ok = true; }
 		else if (!strcmp(mode, "auto")) { fmt = "auto"; r = lzma_auto_decoder(&s, UINT64_MAX, fl); inited = true; }
-		unsigned long long outn = 0; int unsup = 0;
-		if (inited && r == LZMA_OK) {
-			s.next_in = in; s.avail_in = n;
+		unsigned long long outn = 0; int unsup = 0; size_t ipos = 0;
+		bool k8 = strchr(flg, '8');
+		if (inited && r == LZMA_OK && !k8) {
+			s.next_in = in; s.avail_in = n; ipos = n;
 			for (;;) {
 				s.next_out = obuf; s.avail_out = sizeof obuf;
 				r = lzma_code(&s, LZMA_FINISH);
@@ -83,8 +88,30 @@ int main(void) {
 				if (r == LZMA_UNSUPPORTED_CHECK) { unsup++; continue; }
 				break;
 			}
+		} else if (inited && r == LZMA_OK) {
+			const size_t B = 8192; bool eof = false; lzma_action action = LZMA_RUN;
+			bool isxz = !strcmp(mode, "xz"), never_finish = !strcmp(mode, "alone");
+#define FILL() do { size_t c = n - ipos < B ? n - ipos : B; s.next_in = in + ipos; s.avail_in = c; ipos += c; if (c < B) eof = true; } while (0)
+			if (isxz) {	// xz reads the first buffer, then lets the decoder look at the headers without output space
+				FILL();
+				s.next_out = NULL; s.avail_out = 0;
+				while ((r = lzma_code(&s, LZMA_RUN)) == LZMA_UNSUPPORTED_CHECK) unsup++;
+				if (r == LZMA_STREAM_END) r = LZMA_OK;
+				if (eof) action = LZMA_FINISH;
+			}
+			s.next_out = obuf; s.avail_out = B;
+			while (r == LZMA_OK || r == LZMA_UNSUPPORTED_CHECK) {
+				if (s.avail_in == 0 && (isxz ? action == LZMA_RUN : true)) { FILL(); if (eof && !never_finish) action = LZMA_FINISH; }
+				r = lzma_code(&s, action);
+				if (r == LZMA_UNSUPPORTED_CHECK) unsup++;
+				if (s.avail_out == 0 || (r != LZMA_OK && r != LZMA_UNSUPPORTED_CHECK)) {
+					size_t got = B - s.avail_out;
+					if (got) { fwrite(obuf, 1, got, of); outn += got; }
+					s.next_out = obuf; s.avail_out = B;
+				}
+			}
 		}
-		size_t left = inited ? s.avail_in : n;
+		size_t left = inited ? s.avail_in + (n - ipos) : n;
 		int err = r != LZMA_STREAM_END;
 		if (!err && left && trailing_is_error) err = 1;
 		(void)trailing_ok;
